@@ -17,7 +17,7 @@ place() { # copy demo into place, echo the go test command dir
 }
 rundemo() { d=$(place) || { echo "place failed $d"; return 2; }
   if [ "$d" = MAIN ]; then timeout 600 go run ./zzdemo >/tmp/demo.out 2>&1; rc=$?; rm -rf zzdemo
-  else timeout 600 go test -vet=off -count=1 -run 'Demo' "./$d/" >/tmp/demo.out 2>&1; rc=$?; rm -f "$d/zz_demo_test.go"; fi
+  else timeout 600 go test -vet=off -count=1 -run "Demo|C1[0-9]|C0[0-9]" "./$d/" >/tmp/demo.out 2>&1; rc=$?; rm -f "$d/zz_demo_test.go"; fi
   return $rc; }
 rundemo; base=$?
 git apply --check "$O/patch.diff" 2>/tmp/apply.err || { res "PATCH-DOES-NOT-APPLY $(head -2 /tmp/apply.err)"; exit 1; }
